@@ -116,7 +116,16 @@ func sameTokens(a, b string) bool {
 	return true
 }
 
-func relaxed(m *c16model.Result, full *c16model.Result, o Outcome) (class, detail string) {
+func relaxed(m *c16model.Result, full *c16model.Result, o Outcome, must string) (class, detail string) {
+	class, detail = relaxedPrefix(m, full, o)
+	if class == "" && !strings.HasPrefix(o.Stdout, must) {
+		// F4: the lines that were delivered completely before the failure were the tool's to translate.
+		return "statements-dropped-after-read-failure", fmt.Sprintf("the statements terminated on lines that were delivered completely before the read failure compile to %q; stdout has only %q", clip(must), clip(o.Stdout))
+	}
+	return class, detail
+}
+
+func relaxedPrefix(m *c16model.Result, full *c16model.Result, o Outcome) (class, detail string) {
 	if o.RetErr == "" {
 		return "read-failure-exit-zero", "input could not be read completely but run returned nil"
 	}
@@ -229,7 +238,24 @@ func Judge(c Case, mc *ModelCache, o Outcome) Verdict {
 		}
 		var class, detail string
 		if r.relaxed {
-			class, detail = relaxed(m, mc.At(len(c.Input)), o)
+			// what the complete lines of the delivered prefix amount to
+			l := r.k
+			for l > 0 && c.Input[l-1] != '\n' {
+				l--
+			}
+			ml := mc.At(l)
+			if ml == nil {
+				return Verdict{Inconclusive: "library fails inside the model: " + mc.ModelPanic}
+			}
+			must := ""
+			for _, p := range ml.Pieces {
+				// (process-level leg: whether an unreadable FILE argument is noticed when it is opened,
+				// before anything is translated, or when its turn comes is the tool's choice)
+				if p.Terminated && !c.ProcLevel {
+					must += p.Out
+				}
+			}
+			class, detail = relaxed(m, mc.At(len(c.Input)), o, must)
 		} else {
 			class, detail = strict(m, o, c.ProcLevel)
 		}
